@@ -58,11 +58,21 @@ def linear_shapes(tier, seed):
     return shapes
 
 
-def solve(k, shape, max_iter, history=None):
+def solve(k, shape, max_iter, history=None, shared_start=False):
     ghost = common.Ghost()
     g, vs, es = graphs.build(k, shape, ghost)
     dims = [POSE_C[T] for _, T, _ in shape["vertices"]]
     fixed_pos = graphs.fixed_positions(shape)
+    start = None
+    if shared_start:
+        # "whatever the initial guess": every free vertex starts at the same point, and the poses are built from ONE array object
+        # (the pose constructors take a float64 array without copying it, so the poses share its storage)
+        T0 = shape["vertices"][0][1]
+        start = k.vec("start", POSE_C[T0])
+        start_before = k.np.array(start)
+        for p_, v in enumerate(vs):
+            if p_ not in fixed_pos:
+                v.pose = k.pose_cls(T0)(start)
     earlier = 0
     for marks, ffp in (history or ()):
         # an earlier call on the same Graph object with OTHER vertices marked; the call under test must solve the
@@ -84,6 +94,8 @@ def solve(k, shape, max_iter, history=None):
     with common.counting_spsolve(k, ghost):
         ret = g.optimize(**kwargs)
     k.check(ghost.s >= earlier + 1, "at least one update")
+    if start is not None:
+        k.same(start, start_before, "the caller's array that the initial guesses were built from is not written")
     for p, v in enumerate(vs):
         k.check(v.fixed == (p in fixed_pos), "the call leaves the marks as they were", (p, v.fixed))
     # the state x1 reached after the first update is the state returned
@@ -171,6 +183,14 @@ def obligations(r, tier, seed):
                 solve(k, shape, None, history)
             obs.append(Ob("C04/global-optimum-after-earlier-calls/%s/%s" % (shape["name"], hname), solve_h, scope="shape-bounded",
                           bound="shape %s, %d earlier call(s)" % (shape["name"], len(history)), funcs=FUNCS, solver="constrained-nonsingular", light=True))
+
+    # ---- the same, with all free vertices started from ONE shared array object
+    for pattern in ("path3", "cycle3", "landmarks"):
+        for shape in by_pattern[pattern]:
+            def solve_s(k, shape=shape):
+                solve(k, shape, None, None, shared_start=True)
+            obs.append(Ob("C04/global-optimum-from-a-shared-initial-guess-array/%s" % shape["name"], solve_s, scope="shape-bounded",
+                          bound="shape " + shape["name"], funcs=FUNCS, solver="constrained-nonsingular", light=True))
 
     def canary(k):
         r_ = k.r
